@@ -149,12 +149,16 @@ def main(argv=None):
     for cfg in ("A", "P64") + (("P32",) if chk.tier == "thorough" else ()):
         c02.prog_for(cfg)
     c18_words.register(chk)
+    import c18_more
+    c18_more.register(chk)
     chk.explanation = ("For each tower and curve method, the aliasing patterns permitted by the signature (parameters without noalias in the IR) are "
                        "enumerated from the IR of the current tree; each (function, pattern) is symbolically executed with the output object being the "
                        "input object(s) and z3 decides equality with the specification for all operand values. %d operand positions are __restrict and "
                        "therefore excluded, as the property states." % nres)
     chk.bounds = ["whole-object aliasing (out=a, out=b, out=a=b); partial overlap is outside the property", "all operand values (free indeterminates)",
-                  "layers covered: Fq2, Fq6, Fq12, Projective<Fq>, Projective<Fq2>; word layer (BigInt/Fp, res==a) is covered by C03; C wrappers forward pointers unchanged (C19)"]
+                  "layers covered: Fq2, Fq6, Fq12, Projective<Fq>, Projective<Fq2>; scalar multiplication (endomorphism / Frobenius methods, w-NAF and double-and-add wrappers), "
+                  "G1::endomorphism, G2::frobenius_map, affine negation, Fq12::exponentiate_gt, square_cyclotomic, map_to_cyclotomic, final_exponentiation with result == input (checks/c18_more.py); "
+                  "word layer (BigInt/Fp, res==a) is covered by C03 and c18_words; C wrappers forward pointers unchanged (C19)"]
     chk.trusted = ["same as C04/C05"]
     chk.assumptions = ["Fq-level methods are alias-safe (word layer, C02/C03)"]
     chk.run()
